@@ -4,6 +4,7 @@
 
 /* System Headers */
 #include <qthread/qthread-int.h> /* for uint64_t */
+#include <errno.h>               /* for errno */
 
 #include <sys/select.h>
 
@@ -47,6 +48,7 @@ int qt_select(int                      nfds,
     me->thread_state        = QTHREAD_STATE_SYSCALL;
     qthread_back_to_master(me);
     ret = job->ret;
+    if (ret == -1) { errno = job->err; }
     FREE_SYSCALLJOB(job);
     return ret;
 }
